@@ -14,7 +14,7 @@ LAWS = ["reorder=>0", "symmetric", "non-negative", "triangle", "diagonal points 
         "linear scaling", "vs empty diagram"]
 REQUIRED = ["bn: " + l for l in LAWS] + ["ws: " + l for l in LAWS] + ["bottleneck<=wasserstein", "bn: ==oracle", "ws: ==oracle"]
 RULE = ("triples (X,Y,Z) of diagrams with 10..60 (quick) / 10..300 (thorough) points each (plus a few tiny ones): independent "
-        "random, Y a jittered copy of X (near-zero distances), clustered, integer grids with massive ties; scales 1e-3..1e3; "
+        "random, Y a jittered copy of X (near-zero distances), clustered, integer grids with massive ties, re-paired copies (same births and same deaths, different pairing); scales 1e-3..1e3; "
         "one hash seed per worker. Every law is a separate monitor clause; the C01/C02 scipy oracles run on the same "
         "values. non-trivial = all three diagrams have >=10 points and are pairwise different; distinct = triple digest")
 ASSUMPTIONS = ["tolerances: bottleneck 1e-9*scale (exact arithmetic up to the transformation's own rounding), Wasserstein "
@@ -40,11 +40,15 @@ def gen_triple(rng, tier):
             top = 100 if r < 0.7 else (200 if r < 0.95 else 300)
         sizes = [int(rng.integers(10, top + 1)) for _ in range(3)]
     scale = float(rng.choice([1e-3, 0.1, 1, 1, 1, 10, 1e3]))
-    style = str(rng.choice(["indep", "jitter", "cluster", "grid", "mixed"]))
+    style = str(rng.choice(["indep", "jitter", "cluster", "grid", "mixed", "repaired"]))
     if style == "grid":
         X, Y, Z = (gen.diagram(rng, n, "grid", scale) for n in sizes)
     elif style == "cluster":
         X, Y, Z = (gen.diagram(rng, n, "cluster", scale) for n in sizes)
+    elif style == "repaired":
+        X = gen.diagram(rng, sizes[0], str(rng.choice(["grid", "float", "dyadic"])), scale)
+        Y = gen.repaired(rng, X)
+        Z = gen.repaired(rng, Y) if rng.random() < 0.5 else gen.diagram(rng, sizes[2], None, scale)
     elif style == "jitter":
         X = gen.diagram(rng, sizes[0], "float", scale)
         def jit(P, n, amp):
